@@ -54,6 +54,8 @@ def ev(t, env):
                 'BitAnd': a & b, 'BitOr': a | b}[op]
     if k == 'un' and t[1] == 'Not':
         return 1 - ev(t[2], env)
+    if k == 'agg' and t[1] == 'std::task::Poll':
+        return int(t[2] == 'Ready')
     raise EvalError(str(k))
 
 
@@ -79,7 +81,15 @@ def pick(paths, env):
 def counter(F, R):
     fns = {}
     for name, pat in (('dec', r'^inflight::CounterInner::dec$'), ('inc', r'^inflight::CounterInner::inc$'), ('available', r'^inflight::CounterInner::available$'), ('is_available', r'^inflight::Counter::is_available$')):
-        b = F.one(pat)
+        if name == 'available' and not F.find(pat):
+            # the helper went into its (only) caller or answers with Poll instead of bool: the body of the counter module that
+            # registers the waker and answers whether there is room
+            cands = [x for x in F.find(r'^inflight::') if x.locals[0].get('ty') in ('bool', 'std::task::Poll<()>') and any(True for _ in x.calls_to(r'LocalWaker::register$'))]
+            if len(cands) != 1:
+                raise AnchorLost("expected exactly one body matching %r (or one body of inflight:: that registers the waker and answers bool / Poll<()>), found %d" % (pat, len(cands)))
+            b = cands[0]
+        else:
+            b = F.one(pat)
         se = SymEx(b, F)
         fns[name] = [p for p in se.run() if p.end[0] == 'return']
         R.ob('C12.counter', '%s|paths-extracted' % name, len(fns[name]) >= 3 and not se.truncated, '%d paths' % len(fns[name]))
